@@ -352,6 +352,13 @@ func (gen *filterGen) Type(typ types.Type) string {
 	switch t := typ.(type) {
 	case *types.Array:
 		return `[` + strconv.FormatInt(t.Len(), 10) + `]` + gen.Type(t.Elem())
+	case *types.Basic:
+		// byte and rune are spelled differently from uint8 and int32 but are
+		// identical types, so they have to produce the same filter.
+		if kind := t.Kind(); kind >= 0 && int(kind) < len(types.Typ) {
+			return types.Typ[kind].String()
+		}
+		return t.String()
 	case *types.Chan:
 		return `chan ` + gen.Type(t.Elem())
 	case *types.Interface:
